@@ -1,7 +1,7 @@
 #!/usr/bin/env python3
 """Generate the prompts for a round of independently written breaking changes (sub-agents).
 
-    seed_prompts.py <round-number> <suffixes-of-earlier-rounds, e.g. ",b,c,d"> [ids...]
+    seed_prompts.py <round-number> <suffixes-of-earlier-rounds, e.g. ",b,c,d"  or "-" for an undisclosed round> [ids...]
 
 Creates one scratch worktree of /repo per property under /tmp/w<round>_cNN and writes /tmp/agent<round>_prompt_Cxx.txt.
 Each prompt contains ONLY the property text, the worktree path and one-line summaries of the earlier changes for that
@@ -28,7 +28,7 @@ for pid in ids:
     wt = "/tmp/w%s_c%s" % (rnd, pid[1:])
     if not os.path.isdir(wt):
         subprocess.run(["git", "-C", "/repo", "worktree", "add", "-q", "--detach", wt, "HEAD"], check=True)
-    ps = [json.load(open(os.path.join(VERIF, "seeded", pid + s, "meta.json"))).get("summary", "").replace("\n", " ") for s in sfx]
+    ps = [] if sfx == ["-"] else [json.load(open(os.path.join(VERIF, "seeded", pid + s, "meta.json"))).get("summary", "").replace("\n", " ") for s in sfx]
     t = base.replace("/tmp/w2_c04", wt).replace(props["C04"], props[pid]).replace('"property": "C04"', '"property": "%s"' % pid)
     listing = "\n".join(" %d. %s" % (i + 1, s) for i, s in enumerate(ps))
     t = t.replace("PREVIOUS CHANGE: " + prev04,
@@ -38,6 +38,11 @@ for pid in ids:
                   "the property's own observation points under a rare combination of conditions. Only report completion after "
                   "patch.diff, demo_break.py and meta.json are final; make sure demo_break.py always terminates (use os._exit if "
                   "necessary) within 60 seconds." % (len(ps), listing))
+    if not ps:     # an undisclosed round: no hint about earlier changes at all
+        i0 = t.index("IMPORTANT - a previous engineer")
+        i1 = t.index("\n", t.index("PREVIOUS CHANGES (0 engineers"))
+        i1 = t.index("Deliverables (all inside", i1)
+        t = t[:i0] + "Only report completion after patch.diff, demo_break.py and meta.json are final; make sure demo_break.py always terminates (use os._exit if necessary) within 60 seconds.\n\n" + t[i1:]
     t = t.replace("a previous engineer already produced this change for the same property; yours must use",
                   "previous engineers already produced changes for the same property; yours must use")
     open("/tmp/agent%s_prompt_%s.txt" % (rnd, pid), "w").write(t)
